@@ -138,10 +138,15 @@ def HeaderOK (c : CsState) (e : ChunkEv) : Prop :=
 
 instance (c : CsState) (e : ChunkEv) : Decidable (HeaderOK c e) := by unfold HeaderOK; infer_instance
 
-/-- Timestamp of the message the event belongs to. -/
-def newTs (c : CsState) (e : ChunkEv) : Nat :=
+/-- Timestamp of the message the event belongs to. `absExt = false` is the specification (§5.3.1.3:
+the extended timestamp field of a type 1/2/3 chunk carries the DELTA). `absExt = true` is the deviating
+reading "an extended timestamp field is always an absolute time" — NOT the specification; it is kept
+as a parameter only so that the library's known deviation K2 can be stated exactly (the reader
+implements precisely this variant, `Props.C02.C02_reader_is_absext_variant`). -/
+def newTs (absExt : Bool) (c : CsState) (e : ChunkEv) : Nat :=
   if c.busy then c.ts
   else if e.fmt = 0 then e.tsField
+  else if absExt = true ∧ 16777215 ≤ e.tsField then e.tsField  -- the deviating reading only
   else if e.fmt = 3 then (c.ts + c.delta) % 4294967296  -- new message: the delta in force
   else (c.ts + e.tsField) % 4294967296                  -- type 1/2: the delta sent
 
@@ -167,8 +172,9 @@ def Sender.setCs (s : Sender) (cid : Nat) (c : CsState) (chunkSize : Nat) : Send
   { chunkSize := chunkSize, cs := fun k => if k = cid then some c else s.cs k }
 
 /-- One chunk event: `none` when the event breaks a rule in this state; otherwise the next state
-and the message this chunk completes, if any. -/
-def step (s : Sender) (e : ChunkEv) : Option (Sender × Option Message) :=
+and the message this chunk completes, if any. (`absExt`: see `newTs`; the specification is `false`.
+Whether an event is accepted does not depend on it.) -/
+def step (absExt : Bool) (s : Sender) (e : ChunkEv) : Option (Sender × Option Message) :=
   if ¬ EvOK e then none else
   match lookup s e with
   | none => none
@@ -176,7 +182,7 @@ def step (s : Sender) (e : ChunkEv) : Option (Sender × Option Message) :=
     if ¬ HeaderOK c e then none else
     let got := if c.busy then c.got else []
     if e.data.length ≠ min (e.len - got.length) s.chunkSize then none else
-    let ts := newTs c e
+    let ts := newTs absExt c e
     let payload := got ++ e.data
     if payload.length = e.len then
       if ¬ ControlOK e.ty payload then none else
@@ -192,24 +198,31 @@ def optList : Option α → List α
   | none => []
 
 /-- Run a trace; messages in completion order. -/
-def run : Sender → List ChunkEv → Option (Sender × List Message)
+def run (absExt : Bool) : Sender → List ChunkEv → Option (Sender × List Message)
   | s, [] => some (s, [])
   | s, e :: tr =>
-    match step s e with
+    match step absExt s e with
     | none => none
     | some (s', out) =>
-      match run s' tr with
+      match run absExt s' tr with
       | none => none
       | some (s'', ms) => some (s'', optList out ++ ms)
 
 /-- The trace is something a sender following §5.3 can emit from the initial state. -/
-def Conformant (tr : List ChunkEv) : Prop := (run {} tr).isSome = true
+def Conformant (tr : List ChunkEv) : Prop := (run false {} tr).isSome = true
 
 instance (tr : List ChunkEv) : Decidable (Conformant tr) := by unfold Conformant; infer_instance
 
 /-- The messages that were chunked, in completion order, timestamps reduced to 31 bits. -/
 def specMessages (tr : List ChunkEv) : List Message :=
-  match run {} tr with
+  match run false {} tr with
+  | some (_, ms) => ms
+  | none => []
+
+/-- NOT the specification: the messages under the deviating reading `absExt = true` (see `newTs`).
+They differ from `specMessages` in timestamps only, and only for traces that use an extended delta. -/
+def messagesAbsExt (tr : List ChunkEv) : List Message :=
+  match run true {} tr with
   | some (_, ms) => ms
   | none => []
 
@@ -233,7 +246,7 @@ def noExtDeltaFrom : Sender → List ChunkEv → Bool
   | _, [] => true
   | s, e :: tr =>
     !decide (UsesExtDelta s e) &&
-      match step s e with
+      match step false s e with
       | some (s', _) => noExtDeltaFrom s' tr
       | none => true
 
@@ -246,7 +259,7 @@ of the chunk stream that sent it; other chunk streams may still be inside a mess
 def endsCompleteFrom : Sender → List ChunkEv → Bool
   | _, [] => true
   | s, e :: tr =>
-    match step s e with
+    match step false s e with
     | some (s', out) => if tr.isEmpty then out.isSome else endsCompleteFrom s' tr
     | none => false
 
